@@ -219,4 +219,7 @@ def run(rep: Report):
                "PEP 263 coding cookies and a BOM are outside the property (UTF-8 source)")
     e1common.file_into(rep, "C12", rep.tier)
     entry_point_obligations(rep)
+    # the text of a file-mode error comes from Tokenizer.get_lines: it agrees with string mode only if the file is read as it is NOW (same obligation as C11's)
+    from checks.c11 import lines_obligation
+    lines_obligation(rep, "C12")
     standin(rep)
